@@ -3,10 +3,14 @@ import sys, json
 e = json.load(open('/verif/evidence/%s.json' % sys.argv[1]))
 c = e['coverage']
 print('status', c['obligation_status'], 'wall', e['wall_s'])
-for m in c['harness_errors']:
+seen=set()
+for m in c['harness_errors'][:40]:
+    key=m.strip().splitlines()[-1][:80]
+    if key in seen: continue
+    seen.add(key)
     lines = m.strip().splitlines()
     print('HE:', lines[0][:300])
-    for l in lines[-6:]:
+    for l in lines[-4:]:
         print('     ', l[:200])
 for m in c['inconclusive']:
     print('INC:', m[:300])
